@@ -535,7 +535,15 @@ Section Span.
     destruct (run_model_core ops) as (s & I & L & _). rewrite L. unfold run_spec. now apply inv_live.
   Qed.
 
-  (** snapshot() differs from the accessors only in the guarded copies of the drop counters. *)
+  (** snapshot() reports exactly what the accessors report. *)
+  Lemma snapshot_live s : snapshot s = live s.
+  Proof. unfold snapshot, live. now destruct (m_attrs s). Qed.
+
+  (** What the exporter receives is what the specification says, for all limits. *)
+  Theorem snapshot_refines ops : snapshot (run_model lim name0 ops) = run_spec lim name0 ops.
+  Proof. now rewrite snapshot_live, live_refines. Qed.
+
+  (** The snapshot as it was before fix 543ed08 hid the drop counters of empty queues. *)
   Definition hide_empty_dropped (x : export) : export :=
     {| x_name := x_name x; x_status := x_status x; x_attrs := x_attrs x; x_dropped := x_dropped x;
        x_events := x_events x;
@@ -543,39 +551,15 @@ Section Span.
        x_links := x_links x;
        x_lkdropped := match x_links x with [] => 0%nat | _ => x_lkdropped x end |}.
 
-  Lemma snapshot_live s : snapshot s = hide_empty_dropped (live s).
+  Lemma snapshot_before_fix_live s : snapshot_before_fix s = hide_empty_dropped (live s).
   Proof.
-    unfold snapshot, hide_empty_dropped, live. cbn [x_name x_status x_attrs x_dropped x_events x_evdropped x_links x_lkdropped].
+    unfold snapshot_before_fix, hide_empty_dropped, live. cbn [x_name x_status x_attrs x_dropped x_events x_evdropped x_links x_lkdropped].
     destruct (m_attrs s); reflexivity.
   Qed.
 
-  Theorem snapshot_refines_general ops :
-    snapshot (run_model lim name0 ops) = hide_empty_dropped (run_spec lim name0 ops).
-  Proof. now rewrite snapshot_live, live_refines. Qed.
-
-  Lemma bounded_empty_dropped {A} c (all : list A) :
-    c <> 0%Z -> fst (bounded c all) = [] -> snd (bounded c all) = 0%nat.
-  Proof.
-    unfold bounded. cbn [fst snd]. intros Hc. destruct (Z.ltb_spec c 0).
-    - intros ->. reflexivity.
-    - intro E. pose proof (lastn_length (Z.to_nat c) all) as L. rewrite E in L. cbn in L.
-      assert (length all = 0)%nat by lia. lia.
-  Qed.
-
-  (** What the exporter receives is what the specification says whenever the
-      event and link count limits are not 0 (F-C04-2 / F-C04-3 otherwise). *)
-  Theorem snapshot_refines ops : lim_events lim <> 0%Z -> lim_links lim <> 0%Z ->
-    snapshot (run_model lim name0 ops) = run_spec lim name0 ops.
-  Proof.
-    intros He Hl. rewrite snapshot_refines_general. unfold hide_empty_dropped, run_spec. cbv zeta.
-    cbn [x_name x_status x_attrs x_dropped x_events x_evdropped x_links x_lkdropped].
-    set (l := before_end ops).
-    pose proof (bounded_empty_dropped (lim_events lim) (events_of lim l) He) as B1.
-    pose proof (bounded_empty_dropped (lim_links lim) (links_of lim l) Hl) as B2.
-    destruct (fst (bounded (lim_events lim) (events_of lim l))) eqn:E1;
-      destruct (fst (bounded (lim_links lim) (links_of lim l))) eqn:E2;
-      try rewrite (B1 eq_refl); try rewrite (B2 eq_refl); reflexivity.
-  Qed.
+  Theorem snapshot_before_fix_general ops :
+    snapshot_before_fix (run_model lim name0 ops) = hide_empty_dropped (run_spec lim name0 ops).
+  Proof. now rewrite snapshot_before_fix_live, live_refines. Qed.
 End Span.
 
 Lemma before_end_app_end ops1 ops2 : before_end (ops1 ++ OEnd :: ops2) = before_end ops1.
@@ -815,3 +799,125 @@ Section Closed.
         * unfold dropped_count. fold K. lia.
   Qed.
 End Closed.
+
+(** ** Consequences of the closed form *)
+
+Lemma spec_attrs_nodup lenlim limit os : NoDup (keys (fst (spec_attrs lenlim limit os))).
+Proof. unfold spec_attrs. apply fold_offer_nodup. constructor. Qed.
+
+Lemma spec_attrs_keys lenlim limit os : keys (fst (spec_attrs lenlim limit os)) = kept_keys limit os.
+Proof. rewrite spec_attrs_closed. unfold attrs_closed. cbn [fst]. apply keys_map. Qed.
+
+Lemma spec_attrs_len lenlim limit os : (0 <= limit)%Z ->
+  (Z.of_nat (length (fst (spec_attrs lenlim limit os))) <= limit)%Z.
+Proof. intro H. unfold spec_attrs. apply fold_offer_len; [exact H | cbn; lia]. Qed.
+
+Lemma lookup_map (h : bytes -> value) ks k : In k ks -> lookup k (map (fun x => (x, h x)) ks) = Some (h k).
+Proof.
+  induction ks as [|x ks IH]; intro I; [destruct I|]. cbn [map lookup].
+  destruct (bytes_eqb x k) eqn:E.
+  - apply bytes_eqb_eq in E. now subst.
+  - apply IH. destruct I as [->|I]; [now rewrite bytes_eqb_refl in E | exact I].
+Qed.
+
+(** Last value wins: a kept key holds the (truncated) value supplied last for it. *)
+Lemma spec_attrs_lastwins lenlim limit os k : In k (kept_keys limit os) ->
+  lookup k (fst (spec_attrs lenlim limit os)) = Some (trunc_value lenlim (last_val k os)).
+Proof. intro I. rewrite spec_attrs_closed. unfold attrs_closed. cbn [fst]. now apply (lookup_map (fun x => trunc_value lenlim (last_val x os))). Qed.
+
+Lemma truncate_spec_within lenlim s : (0 <= lenlim)%Z -> (rune_count (truncate_spec lenlim s) <= Z.to_nat lenlim)%nat.
+Proof. intro H. rewrite <- truncate_refines. now apply truncate_characterised. Qed.
+
+Lemma trunc_value_within lenlim v : value_within lenlim (trunc_value lenlim v).
+Proof.
+  intro H. destruct v; cbn; auto.
+  - now apply truncate_spec_within.
+  - induction l; cbn; constructor; [now apply truncate_spec_within | assumption].
+Qed.
+
+Lemma spec_attrs_within lenlim limit os :
+  Forall (fun a => value_within lenlim (snd a)) (fst (spec_attrs lenlim limit os)).
+Proof.
+  rewrite spec_attrs_closed. unfold attrs_closed. cbn [fst]. apply Forall_forall. intros a I.
+  apply in_map_iff in I as (k & <- & _). cbn [snd]. apply trunc_value_within.
+Qed.
+
+(** ** Bounded FIFO and per-item cap *)
+
+Lemma bounded_law {A} c (all : list A) :
+  exists pre, all = pre ++ fst (bounded c all) /\ length pre = snd (bounded c all) /\
+              ((c < 0)%Z -> pre = []) /\
+              ((0 <= c)%Z -> length (fst (bounded c all)) = Nat.min (Z.to_nat c) (length all)).
+Proof.
+  unfold bounded. cbn [fst snd]. destruct (Z.ltb_spec c 0) as [L|L].
+  - exists []. repeat split; try lia. cbn. lia.
+  - exists (firstn (length all - Z.to_nat c) all). unfold lastn. rewrite firstn_skipn.
+    repeat split; try lia.
+    + rewrite firstn_length, skipn_length. lia.
+    + rewrite skipn_length. lia.
+Qed.
+
+Lemma cap_law limit (l : list kv) :
+  exists rest, l = fst (cap limit l) ++ rest /\ length rest = snd (cap limit l) /\
+               ((limit < 0)%Z -> rest = []) /\
+               ((0 <= limit)%Z -> length (fst (cap limit l)) = Nat.min (Z.to_nat limit) (length l)).
+Proof.
+  unfold cap. cbn [fst snd]. destruct (Z.ltb_spec limit 0) as [L|L].
+  - exists []. rewrite app_nil_r. repeat split; try lia. cbn. lia.
+  - exists (skipn (Z.to_nat limit) l). rewrite firstn_skipn.
+    split; [reflexivity|]. split; [|split]; try lia.
+    + rewrite firstn_length, skipn_length. lia.
+    + intros _. apply firstn_length.
+Qed.
+
+(** ** Status *)
+
+Lemma status_fold_calls ops : forall cur,
+  fold_left (fun cur o => match o with OSetStatus c d => status_step cur c d | _ => cur end) ops cur =
+  fold_left (fun cur c => status_step cur (fst c) (snd c)) (status_calls ops) cur.
+Proof.
+  induction ops as [|o ops IH]; intro cur; [reflexivity|].
+  unfold status_calls in *. cbn [fold_left flat_map]. rewrite fold_left_app, IH. now destruct o.
+Qed.
+
+Lemma max_code_snoc calls c : max_code (calls ++ [c]) = N.max (max_code calls) (fst c).
+Proof. unfold max_code. now rewrite map_app, fold_left_app. Qed.
+
+Lemma last_error_desc_snoc calls c :
+  last_error_desc (calls ++ [c]) = if fst c =? 1 then snd c else last_error_desc calls.
+Proof. unfold last_error_desc. now rewrite fold_left_app. Qed.
+
+Lemma status_closed_calls calls :
+  fold_left (fun cur c => status_step cur (fst c) (snd c)) calls (0, []) =
+  (max_code calls, if max_code calls =? 1 then last_error_desc calls else []).
+Proof.
+  induction calls as [|c calls IH] using rev_ind; [reflexivity|].
+  rewrite fold_left_app, IH. cbn [fold_left]. rewrite max_code_snoc, last_error_desc_snoc.
+  unfold status_step. cbn [fst snd]. set (M := max_code calls). destruct c as [c d]. cbn [fst snd].
+  destruct (N.ltb_spec c M) as [L|L].
+  - replace (N.max M c) with M by lia. f_equal.
+    destruct (N.eqb_spec M 1) as [E|E]; [|reflexivity].
+    destruct (N.eqb_spec c 1); [lia | reflexivity].
+  - replace (N.max M c) with c by lia. f_equal. now destruct (c =? 1).
+Qed.
+
+Lemma status_closed ops :
+  status_of ops = (max_code (status_calls ops),
+                   if max_code (status_calls ops) =? 1 then last_error_desc (status_calls ops) else []).
+Proof. unfold status_of. rewrite status_fold_calls. apply status_closed_calls. Qed.
+
+(** ** Before fix 543ed08 the exported dropped counters were not exact for limit 0 (F-C04-2 / F-C04-3) *)
+
+Definition lim_ev0 : limits :=
+  {| lim_len := -1; lim_attrs := -1; lim_events := 0; lim_links := -1; lim_evattrs := -1; lim_lkattrs := -1 |}.
+Definition lim_lk0 : limits :=
+  {| lim_len := -1; lim_attrs := -1; lim_events := -1; lim_links := 0; lim_evattrs := -1; lim_lkattrs := -1 |}.
+
+Lemma snapshot_before_fix_refuted :
+  (exists lim name0 ops, x_evdropped (snapshot_before_fix (run_model lim name0 ops)) <> x_evdropped (run_spec lim name0 ops)) /\
+  (exists lim name0 ops, x_lkdropped (snapshot_before_fix (run_model lim name0 ops)) <> x_lkdropped (run_spec lim name0 ops)).
+Proof.
+  split.
+  - exists lim_ev0, (str "s"), [OAddEvent (str "e") 1 []; OAddEvent (str "e") 2 []; OEnd]. vm_compute. discriminate.
+  - exists lim_lk0, (str "s"), [OAddLink 1 false []; OEnd]. vm_compute. discriminate.
+Qed.
